@@ -356,6 +356,13 @@ pub fn check(c: &Case5, st: &mut Stats, tier: Tier) -> CheckResult {
             ensure!(ia.partial_cmp(&ib) == Some(want_ord), "c05:cmp", "{} cmp {} reported {:?} want {:?}", ra_dec(a), ra_dec(b), ia.partial_cmp(&ib), want_ord);
             ensure!((ia < ib) == (want_ord == Ordering::Less), "c05:cmp", "{} < {} reported {}", ra_dec(a), ra_dec(b), ia < ib);
             ensure!(ib.partial_cmp(&ia) == Some(want_ord.reverse()), "c05:cmp", "{} cmp {} reported {:?}", ra_dec(b), ra_dec(a), ib.partial_cmp(&ia));
+            // every operator form a caller can write (the trait's provided methods may be overridden one by one)
+            ensure!((ia > ib) == (want_ord == Ordering::Greater), "c05:cmp-gt", "{} > {} reported {}", ra_dec(a), ra_dec(b), ia > ib);
+            ensure!((ia <= ib) == (want_ord != Ordering::Greater), "c05:cmp-le", "{} <= {} reported {}", ra_dec(a), ra_dec(b), ia <= ib);
+            ensure!((ia >= ib) == (want_ord != Ordering::Less), "c05:cmp-ge", "{} >= {} reported {}", ra_dec(a), ra_dec(b), ia >= ib);
+            ensure!((ia != ib) == (want_ord != Ordering::Equal), "c05:ne", "{} != {} reported {}", ra_dec(a), ra_dec(b), ia != ib);
+            ensure!((ib <= ia) == (want_ord != Ordering::Less), "c05:cmp-le", "{} <= {} reported {}", ra_dec(b), ra_dec(a), ib <= ia);
+            ensure!((ib >= ia) == (want_ord != Ordering::Greater), "c05:cmp-ge", "{} >= {} reported {}", ra_dec(b), ra_dec(a), ib >= ia);
 
             let mut qclass = "div:none(b=0)";
             if !rb.is_zero() {
